@@ -1,7 +1,10 @@
-(* C15 -- refutation witnesses: states satisfying the full invariant and one
-   operation after which the code as it stands ([pinned]) violates it.  Each
-   is replayed on the real library by checks/C15.py.  For the defects that have
-   a repair flag the same operation keeps the invariant under [fixed]. *)
+(* C15 -- witnesses.  (1) Regression: the sequences on which the tree violated
+   the invariant before the repairs d815d97 .. 71a6c5d / fb2ee00 now keep the
+   full invariant in the model of the current code.  (2) Refutation: states
+   satisfying the full invariant and one operation after which the code as it
+   stands ([pinned]) still violates it; for the two with a proposed repair the
+   same operation keeps the invariant under [fixed].  All are replayed on the
+   real library by checks/C15.py. *)
 From Coq Require Import List NArith ZArith Bool.
 From GD Require Import C15.Order C15.NameTable.
 Import ListNotations.
@@ -54,39 +57,41 @@ Definition w_deref_op := ODel x_ 12.
 
 Ltac vm := vm_compute; reflexivity.
 
-Lemma w_delref : inv_full (w_delref_pre pinned) = true /\ ref_ok (fst (step pinned (w_delref_pre pinned) w_delref_op)) = false
-  /\ inv_full (fst (step fixed (w_delref_pre fixed) w_delref_op)) = true.
+(* (1) repaired: the full invariant holds before and after *)
+Lemma w_delref : inv_full (w_delref_pre pinned) = true /\ inv_full (fst (step pinned (w_delref_pre pinned) w_delref_op)) = true.
+Proof. split; vm. Qed.
+Lemma w_hide : inv_full (w_hide_pre pinned) = true /\ inv_full (fst (step pinned (w_hide_pre pinned) w_hide_op)) = true.
+Proof. split; vm. Qed.
+Lemma w_affix : inv_full (w_affix_pre pinned) = true /\ inv_full (fst (step pinned (w_affix_pre pinned) w_affix_op)) = true.
+Proof. split; vm. Qed.
+Lemma w_delmeta : inv_full (w_delmeta_pre pinned) = true /\ inv_full (fst (step pinned (w_delmeta_pre pinned) w_delmeta_op)) = true.
+Proof. split; vm. Qed.
+Lemma w_rencache : inv_full (w_rencache_pre pinned) = true /\ inv_full (fst (step pinned (w_rencache_pre pinned) w_rencache_op)) = true.
+Proof. split; vm. Qed.
+Lemma w_renref : inv_full (w_renref_pre pinned) = true /\ inv_full (fst (step pinned (w_renref_pre pinned) w_renref_op)) = true.
+Proof. split; vm. Qed.
+Lemma w_spec : inv_full (w_spec_pre pinned) = true /\ inv_full (fst (step pinned (w_spec_pre pinned) w_spec_op)) = true.
+Proof. split; vm. Qed.
+Lemma w_parent : inv_full (w_parent_pre pinned) = true /\ inv_full (fst (step pinned (w_parent_pre pinned) w_parent_op)) = true.
+Proof. split; vm. Qed.
+Lemma w_malias : inv_full (w_malias_pre pinned) = true /\ inv_full (fst (step pinned (w_malias_pre pinned) w_malias_op)) = true.
+Proof. split; vm. Qed.
+Lemma w_loop : inv_full (w_loop_pre pinned) = true /\ snd (step pinned (w_loop_pre pinned) w_loop_op) = RInt 0%Z
+  /\ inv_full (fst (step pinned (w_loop_pre pinned) w_loop_op)) = true.
 Proof. repeat split; vm. Qed.
-Lemma w_hide : inv_full (w_hide_pre pinned) = true /\ cache_consistent (fst (step pinned (w_hide_pre pinned) w_hide_op)) = false
-  /\ inv_full (fst (step fixed (w_hide_pre fixed) w_hide_op)) = true.
+
+(* (2) still open *)
+Lemma w_stale : inv_full (w_stale_pre pinned) = true /\ alias_resolved (fst (step pinned (w_stale_pre pinned) w_stale_op)) = false
+  /\ alias_resolved (fst (step fixed (w_stale_pre fixed) w_stale_op)) = false.
 Proof. repeat split; vm. Qed.
-Lemma w_affix : inv_full (w_affix_pre pinned) = true /\ cache_live (fst (step pinned (w_affix_pre pinned) w_affix_op)) = false
-  /\ inv_full (fst (step fixed (w_affix_pre fixed) w_affix_op)) = true.
+(* cross-container: adding the target of a top-level alias below a parent leaves D->fl stale *)
+Definition w_xcache_pre c := run c init_state [konst false None p_ 0; OAlias None al_ [112; 47; 120] 0; OList None S_ALL 0].
+Definition w_xcache_op := konst true (Some p_) x_ 0.
+Lemma w_xcache : inv_full (w_xcache_pre pinned) = true /\ cache_consistent (fst (step pinned (w_xcache_pre pinned) w_xcache_op)) = false.
 Proof. repeat split; vm. Qed.
-Lemma w_delmeta : inv_full (w_delmeta_pre pinned) = true /\ meta_ok (fst (step pinned (w_delmeta_pre pinned) w_delmeta_op)) = false
-  /\ inv_full (fst (step fixed (w_delmeta_pre fixed) w_delmeta_op)) = true.
+Lemma w_dup : inv_full (w_dup_pre pinned) = true /\ sorted_ok (fst (step pinned (w_dup_pre pinned) w_dup_op)) = false
+  /\ inv_full (fst (step fixed (w_dup_pre fixed) w_dup_op)) = true.
 Proof. repeat split; vm. Qed.
-Lemma w_rencache : inv_full (w_rencache_pre pinned) = true /\ cache_live (fst (step pinned (w_rencache_pre pinned) w_rencache_op)) = false
-  /\ inv_full (fst (step fixed (w_rencache_pre fixed) w_rencache_op)) = true.
-Proof. repeat split; vm. Qed.
-Lemma w_renref : inv_full (w_renref_pre pinned) = true /\ fref_ok (fst (step pinned (w_renref_pre pinned) w_renref_op)) = false
-  /\ inv_full (fst (step fixed (w_renref_pre fixed) w_renref_op)) = true.
-Proof. repeat split; vm. Qed.
-Lemma w_spec : inv_full (w_spec_pre pinned) = true /\ cache_consistent (fst (step pinned (w_spec_pre pinned) w_spec_op)) = false
-  /\ inv_full (fst (step fixed (w_spec_pre fixed) w_spec_op)) = true.
-Proof. repeat split; vm. Qed.
-Lemma w_parent : inv_full (w_parent_pre pinned) = true /\ meta_ok (fst (step pinned (w_parent_pre pinned) w_parent_op)) = false
-  /\ inv_full (fst (step fixed (w_parent_pre fixed) w_parent_op)) = true.
-Proof. repeat split; vm. Qed.
-Lemma w_malias : inv_full (w_malias_pre pinned) = true /\ meta_ok (fst (step pinned (w_malias_pre pinned) w_malias_op)) = false
-  /\ inv_full (fst (step fixed (w_malias_pre fixed) w_malias_op)) = true.
-Proof. repeat split; vm. Qed.
-(* these hold for every configuration, including [fixed] *)
-Lemma w_stale : inv_full (w_stale_pre fixed) = true /\ alias_resolved (fst (step fixed (w_stale_pre fixed) w_stale_op)) = false.
-Proof. repeat split; vm. Qed.
-Lemma w_loop : inv_full (w_loop_pre fixed) = true /\ snd (step fixed (w_loop_pre fixed) w_loop_op) = RCrash K_ALIASLOOP.
-Proof. repeat split; vm. Qed.
-Lemma w_dup : inv_full (w_dup_pre fixed) = true /\ sorted_ok (fst (step fixed (w_dup_pre fixed) w_dup_op)) = false.
-Proof. repeat split; vm. Qed.
-Lemma w_deref : inv_full (w_deref_pre fixed) = true /\ alias_live (fst (step fixed (w_deref_pre fixed) w_deref_op)) = false.
+Lemma w_deref : inv_full (w_deref_pre pinned) = true /\ alias_live (fst (step pinned (w_deref_pre pinned) w_deref_op)) = false
+  /\ inv_full (fst (step fixed (w_deref_pre fixed) w_deref_op)) = true.
 Proof. repeat split; vm. Qed.
